@@ -490,6 +490,9 @@ def check_c01(pid, tier, t0, replay_key):
     fn_, on_, sn_, st_n = e2.rule_n(P, tables)
     findings += fn_
     obl += on_
+    fn6, on6 = e2.rule_n6(P)
+    findings += fn6
+    obl += on6
     samples += sn_
     # the schedule half: every job reads the same values in every schedule (E1 R2/R5/R7 reused)
     E = e1.E1(P)
